@@ -1,8 +1,401 @@
+/-
+  C01 — testscript verdict: a script passes iff every executed line meets its demand.
+
+  All theorems are about the skeleton `GIV.TsRun.run` / `runLine` / `cli` (GIV.Model.Script) and hold
+  for EVERY `Config σ`: every state type, tokenizer, condition function, builtin table and
+  `Params.Cmds` — custom commands and conditions are covered by the quantifier.  The specification
+  side uses only the plain folds `lineOut`, `okFold`, `contFold`, `foldCalls`, `firstFatal`.
+
+  The regenerated facts (GIV.Gen.TsRun) enter through `loop_facts`, `line_facts`, `cli_facts` and
+  `skip_honours_failed`; a source change that flips one of them fails there.
+-/
 import GIV.Model.Script
 import GIV.Model.ScriptCmds
+import GIV.Lemmas.TsRun
+import GIV.Lemmas.TsRunCmds
+
 namespace GIV.C01
 open GIV GIV.TsRun
 
-theorem cli_nil : cli [] = 0 := by simp [cli, cliAux]
+variable {σ : Type}
+
+/-! ### toy instance for the non-vacuity examples
+
+state = a counter; words separated by single spaces; commands `i` (count, ok), `f` (Fatalf), `s` (stop),
+`k` (skip, honouring ts.failed), `K` (skip regardless), `n` (count 10 if negated, else 100);
+conditions `y` (true), `n` (false), anything else an error. -/
+
+def bs (s : String) : Bytes := s.toList.map (fun ch => ch.toNat.toUInt8)
+
+def toyCmd (name : Bytes) : Option (Cmd Nat) :=
+  if name = bs "i" then some (fun _ s _ _ => (s + 1, .ok))
+  else if name = bs "f" then some (fun _ s _ _ => (s, .fatal))
+  else if name = bs "s" then some (fun _ s _ _ => (s, .stop))
+  else if name = bs "k" then some (fun failed s _ _ => (s, if failed then .failNow else .skip))
+  else if name = bs "K" then some (fun _ s _ _ => (s, .skip))
+  else if name = bs "n" then some (fun _ s neg _ => (s + (if neg then 10 else 100), .ok))
+  else none
+
+def toy (cont : Bool) : Config Nat :=
+  { continueOnError := cont
+    parse := fun _ l => some ((Cmds.splitOn 32 l).filter (· ≠ []))
+    cond := fun _ n => if n = bs "y" then some true else if n = bs "n" then some false else none
+    builtin := toyCmd
+    custom := fun name => if name = bs "i" then some (fun _ s _ _ => (s + 1000, .ok))
+                          else if name = bs "c" then some (fun _ s _ _ => (s + 7, .ok)) else none }
+
+/-! ### the regenerated facts -/
+
+theorem loop_facts : LoopFacts := ⟨rfl, rfl, rfl, rfl, rfl⟩
+
+theorem line_facts : LineFacts := ⟨rfl, rfl, rfl, rfl, rfl, rfl, rfl, rfl, rfl, rfl, rfl, rfl⟩
+
+theorem cli_facts : CliFacts := ⟨rfl, rfl, rfl⟩
+
+example : Gen.TsRun.commentByte = 35 := rfl
+
+/-! ### pass -/
+
+/-- The run is reported as passed exactly when every line (each from the state its predecessors
+left) ends `ok` — up to the end of the script, or up to and including a `stop`.  In particular a
+`skip`, a Fatalf, a FailNow or a panic anywhere in that prefix excludes `pass`, with or without
+ContinueOnError.  (Lines whose guard does not hold end `ok` without running anything:
+`guard_semantics`.) -/
+theorem pass_iff (c : Config σ) (s : σ) (script : Bytes) :
+    (run c s script).verdict = .pass ↔
+      ((∃ s', okFold c s (splitScript script) = some s') ∨
+       (∃ pre l post s', splitScript script = pre ++ l :: post ∧ okFold c s pre = some s' ∧
+          (lineOut c false s' l).out = .stop)) := by
+  unfold run
+  rw [verdict_pass_iff_passes loop_facts, passes_iff]
+
+example : (run (toy false) 0 (bs "i\n# c\n[n] f\ni\ns\nf\n")).verdict = .pass ∧
+    splitScript (bs "i\n# c\n[n] f\ni\ns\nf\n") = [bs "i", bs "# c", bs "[n] f", bs "i"] ++ bs "s" :: [bs "f"] ∧
+    okFold (toy false) 0 [bs "i", bs "# c", bs "[n] f", bs "i"] = some 2 ∧
+    (lineOut (toy false) false 2 (bs "s")).out = .stop := by decide
+
+example : (run (toy true) 0 (bs "i\nf\ni\n")).verdict = .fail ∧ okFold (toy true) 0 (splitScript (bs "i\nf\ni\n")) = none := by
+  decide
+
+/-- When every line ends `ok` the final state is the fold's and every line's command was called. -/
+theorem pass_state (c : Config σ) (s s' : σ) (script : Bytes)
+    (h : okFold c s (splitScript script) = some s') :
+    (run c s script).verdict = .pass ∧ (run c s script).state = s' ∧ (run c s script).reported = none ∧
+      (run c s script).calls = foldCalls c false s 0 (splitScript script) := by
+  unfold run
+  have := runLines_okFold loop_facts c (splitScript script) [] 0 s s' h
+  simp only [List.append_nil] at this
+  rw [this]
+  simp [runLines, endVerdict_false]
+
+example : okFold (toy false) 0 (splitScript (bs "i\n! n\nn")) = some 111 := by decide
+
+/-! ### the first failure -/
+
+/-- Without ContinueOnError: if the lines before line `k = pre.length + 1` all end `ok` and line `k`
+calls Fatalf, the run fails, the log names line `k`, the state is the one line `k` left behind, no
+command of a later line was called, and `ts.lineno` stays at `k`. -/
+theorem first_failure (c : Config σ) (hc : c.continueOnError = false) (s s' : σ) (script : Bytes)
+    (pre : List Bytes) (l : Bytes) (post : List Bytes)
+    (hsplit : splitScript script = pre ++ l :: post)
+    (hpre : okFold c s pre = some s')
+    (hl : (lineOut c false s' l).out = .fatal) :
+    (run c s script).verdict = .fail ∧
+    (run c s script).reported = some (pre.length + 1) ∧
+    (run c s script).state = (lineOut c false s' l).state ∧
+    (run c s script).calls = foldCalls c false s 0 pre ++ callsOf (pre.length + 1) (lineOut c false s' l) ∧
+    (∀ k ∈ (run c s script).calls, k.lineno ≤ pre.length + 1) ∧
+    (run c s script).lineno = pre.length + 1 := by
+  unfold run
+  rw [hsplit, runLines_okFold loop_facts c pre (l :: post) 0 s s' hpre, runLines_cons loop_facts, hl]
+  simp only [hc, Nat.zero_add]
+  refine ⟨by simp, by simp, by simp, by simp, ?_, by simp⟩
+  intro k hk
+  simp only [List.mem_append] at hk
+  rcases hk with hk | hk
+  · have := (foldCalls_lineno c pre false s 0 k hk).2; omega
+  · have := callsOf_lineno hk; omega
+
+example : splitScript (bs "i\n# x\nf\ni\n") = [bs "i", bs "# x"] ++ bs "f" :: [bs "i"] ∧
+    okFold (toy false) 0 [bs "i", bs "# x"] = some 1 ∧ (lineOut (toy false) false 1 (bs "f")).out = .fatal ∧
+    (run (toy false) 0 (bs "i\n# x\nf\ni\n")).reported = some 3 ∧ (run (toy false) 0 (bs "i\n# x\nf\ni\n")).state = 1 := by
+  decide
+
+/-! ### ContinueOnError -/
+
+/-- With ContinueOnError a Fatalf does not end the loop: after a prefix of lines that end `ok` or
+`fatal`, the loop goes on with the rest from the state (and `failed` flag) the prefix left; the
+prefix's commands were all called, in order; the log names the first `fatal` line. -/
+theorem continue_runs_all (c : Config σ) (hc : c.continueOnError = true) (s s' : σ) (failed' : Bool)
+    (script : Bytes) (pre rest : List Bytes)
+    (hsplit : splitScript script = pre ++ rest)
+    (hpre : contFold c false s pre = some (s', failed')) :
+    (run c s script).verdict = (runLines c rest pre.length failed' s').verdict ∧
+    (run c s script).state = (runLines c rest pre.length failed' s').state ∧
+    (run c s script).calls = foldCalls c false s 0 pre ++ (runLines c rest pre.length failed' s').calls ∧
+    (∀ k, firstFatal c false s 0 pre = some k → (run c s script).reported = some k) := by
+  unfold run
+  rw [hsplit, runLines_contFold loop_facts c hc pre rest 0 false s s' failed' hpre]
+  simp only [Nat.zero_add]
+  refine ⟨trivial, trivial, trivial, ?_⟩
+  intro k hk
+  simp [hk]
+
+/-- … and when all lines end `ok` or `fatal`: every line was executed, and the run fails iff one of
+them was `fatal`. -/
+theorem continue_runs_all_end (c : Config σ) (hc : c.continueOnError = true) (s s' : σ) (failed' : Bool)
+    (script : Bytes) (h : contFold c false s (splitScript script) = some (s', failed')) :
+    (run c s script).state = s' ∧
+    (run c s script).calls = foldCalls c false s 0 (splitScript script) ∧
+    (run c s script).verdict = (if failed' then .fail else .pass) ∧
+    (run c s script).reported = firstFatal c false s 0 (splitScript script) := by
+  unfold run
+  have := runLines_contFold loop_facts c hc (splitScript script) [] 0 false s s' failed' h
+  simp only [List.append_nil] at this
+  rw [this]
+  refine ⟨by simp [runLines], by simp [runLines], ?_, ?_⟩
+  · cases failed' <;> simp [runLines, endVerdict_false, endVerdict_true loop_facts]
+  · cases firstFatal c false s 0 (splitScript script) <;> simp [runLines]
+
+example : contFold (toy true) false 0 (splitScript (bs "i\nf\ni\nf\ni")) = some (3, true) ∧
+    firstFatal (toy true) false 0 0 (splitScript (bs "i\nf\ni\nf\ni")) = some 2 := by decide
+
+/-- Once a line has failed the run fails whatever follows — a later `stop`, the end of the script,
+or a `skip` — as long as no command calls T.Skip although `ts.failed` is set, and none panics.
+(For every `Config`, with or without ContinueOnError.) -/
+theorem failed_stays_failed (c : Config σ) (hh : HonoursFailed c) (hn : NoCrash c)
+    (s s' : σ) (script : Bytes) (pre rest : List Bytes)
+    (hc : c.continueOnError = true)
+    (hsplit : splitScript script = pre ++ rest)
+    (hpre : contFold c false s pre = some (s', true)) :
+    (run c s script).verdict = .fail := by
+  rw [(continue_runs_all c hc s s' true script pre rest hsplit hpre).1]
+  exact runLines_failed_fail loop_facts line_facts c hh hn rest _ _
+
+/-- `HonoursFailed` is needed: with a command that skips regardless (`K`), "line 1 fails, line 2
+skips" is reported as skipped — the defect repaired in /repo's `cmdSkip`. -/
+theorem continue_skip_witness :
+    (run (toy true) 0 (bs "f\nK\n")).verdict = .skip ∧ (run (toy true) 0 (bs "f\nk\n")).verdict = .fail := by
+  decide
+
+/-- The builtin `skip` of the source tree honours `ts.failed`: it calls T.FailNow instead of T.Skip
+when a line has already failed (regenerated fact `skipChecksFailed`). -/
+theorem skip_honours_failed (s : Cmds.St) (neg : Bool) (args : List Bytes) :
+    (Cmds.cmdSkip true s neg args).2 ≠ .skip := by
+  have : Gen.TsRun.skipChecksFailed = true := rfl
+  unfold Cmds.cmdSkip Cmds.fatal
+  simp only [this]
+  split
+  · simp
+  · split <;> simp
+
+/-- Every command of the concrete model — the whole builtin table of cmd.go as modelled, and the
+harness's `Params.Cmds` — honours `ts.failed`: only the builtin `skip` ever calls T.Skip, and it
+does not once a line has failed.  So `failed_stays_failed` applies to the documented command set. -/
+theorem builtins_honour_failed (p : Cmds.P) : HonoursFailed (Cmds.config p) := by
+  intro name f s neg args hl
+  rw [lookup_eq line_facts] at hl
+  simp only [Cmds.config] at hl
+  split at hl
+  · rename_i g hg
+    simp at hl
+    subst hl
+    by_cases h3 : name = lit "skip"
+    · rw [Cmds.builtin_skip p name g hg h3]
+      exact skip_honours_failed s neg args
+    · by_cases h1 : name = lit "cmp"
+      · have := (Cmds.builtin_cmp p name g hg (Or.inl h1) true s neg args).1
+        rcases this with h | h | h <;> simp [h]
+      · by_cases h2 : name = lit "cmpenv"
+        · have := (Cmds.builtin_cmp p name g hg (Or.inr h2) true s neg args).1
+          rcases this with h | h | h <;> simp [h]
+        · have := (Cmds.builtin_tame p name g hg h1 h2 h3 true s neg args).1
+          rcases this with h | h | h | h <;> simp [h]
+  · have := (Cmds.custom_tame p name f hl true s neg args).1
+    rcases this with h | h | h | h <;> simp [h]
+
+example : (Cmds.cmdSkip true Cmds.initSt false []).2 = .failNow ∧ (Cmds.cmdSkip false Cmds.initSt false []).2 = .skip := by
+  decide
+
+/-! ### guards and negation -/
+
+/-- A `[cond]` / `[!cond]` word in front of a command: the rest of the line runs iff the condition's
+value equals `want` (`want = false` exactly for a leading '!'); otherwise the line is a no-op that
+ends `ok`; a condition error, an unknown condition, or a guard with nothing after it is fatal —
+the latter even when the guard does not hold. -/
+theorem guard_semantics (c : Config σ) (failed : Bool) (s : σ) (w : Bytes) (rest : List Bytes)
+    (hw : isGuardWord w = true) :
+    (rest = [] → runArgs c failed s (w :: rest) = ⟨s, .fatal, none⟩) ∧
+    (rest ≠ [] → c.cond s (guardCond w).2 = none → runArgs c failed s (w :: rest) = ⟨s, .fatal, none⟩) ∧
+    (rest ≠ [] → ∀ b, c.cond s (guardCond w).2 = some b → b ≠ (guardCond w).1 →
+        runArgs c failed s (w :: rest) = ⟨s, .ok, none⟩) ∧
+    (rest ≠ [] → c.cond s (guardCond w).2 = some (guardCond w).1 →
+        runArgs c failed s (w :: rest) = runArgs c failed s rest) := by
+  refine ⟨?_, ?_, ?_, ?_⟩
+  · intro h; subst h; exact runArgs_guard_missing line_facts c failed s w hw
+  · intro h1 h2; exact runArgs_guard_error line_facts c failed s w rest hw h1 h2
+  · intro h1 b h2 h3; exact runArgs_guard_false line_facts c failed s w rest hw h1 b h2 h3
+  · intro h1 h2; exact runArgs_guard_true line_facts c failed s w rest hw h1 h2
+
+example : isGuardWord (bs "[!n]") = true ∧ guardCond (bs "[!n]") = (false, bs "n") ∧
+    guardCond (bs "[ !  n ]") = (false, bs "n") ∧ guardCond (bs "[y]") = (true, bs "y") ∧
+    isGuardWord (bs "[") = false ∧ isGuardWord (bs "y]") = false ∧
+    (runArgs (toy false) false 5 [bs "[!n]", bs "[y]", bs "i"]).state = 6 ∧
+    (runArgs (toy false) false 5 [bs "[n]", bs "f"]).out = .ok ∧
+    (runArgs (toy false) false 5 [bs "[n]"]).out = .fatal ∧
+    (runArgs (toy false) false 5 [bs "[q]", bs "i"]).out = .fatal := by decide
+
+/-- The line as a whole: tokenizer error fatal, no words ok, otherwise the guards and the command. -/
+theorem line_semantics (c : Config σ) (failed : Bool) (s : σ) (line : Bytes) :
+    (c.parse s line = none → runLine c failed s line = ⟨s, .fatal, none⟩) ∧
+    (c.parse s line = some [] → runLine c failed s line = ⟨s, .ok, none⟩) ∧
+    (∀ w ws, c.parse s line = some (w :: ws) → runLine c failed s line = runArgs c failed s (w :: ws)) :=
+  ⟨runLine_parse_error line_facts c failed s line, runLine_blank line_facts c failed s line,
+   fun w ws h => runLine_of_parse line_facts c failed s line w ws h⟩
+
+/-- After the guards: the command function receives `neg = true` exactly when the first word is
+"!", and in both cases the words after the command name; the command is looked up in the builtin
+table first and in `Params.Cmds` only when the builtin table has no entry; an unknown command and a
+"!" with nothing after it are fatal. -/
+theorem neg_passed (c : Config σ) (failed : Bool) (s : σ) (name : Bytes) (rest : List Bytes) :
+    (∀ f, lookup c name = some f →
+        runArgs c failed s ([BANG] :: name :: rest) =
+          ⟨(f failed s true rest).1, (f failed s true rest).2, some (true, name, rest)⟩) ∧
+    (∀ f, lookup c name = some f → name ≠ [BANG] → isGuardWord name = false →
+        runArgs c failed s (name :: rest) =
+          ⟨(f failed s false rest).1, (f failed s false rest).2, some (false, name, rest)⟩) ∧
+    (lookup c name = none → name ≠ [BANG] → isGuardWord name = false →
+        runArgs c failed s (name :: rest) = ⟨s, .fatal, none⟩) ∧
+    (lookup c name = none → runArgs c failed s ([BANG] :: name :: rest) = ⟨s, .fatal, none⟩) ∧
+    runArgs c failed s [[BANG]] = ⟨s, .fatal, none⟩ ∧
+    lookup c name = (match c.builtin name with | some f => some f | none => c.custom name) := by
+  have hb : isGuardWord [BANG] = false := by decide
+  refine ⟨?_, ?_, ?_, ?_, ?_, lookup_eq line_facts c name⟩
+  · intro f hf; rw [runArgs_plain c failed s _ _ hb]; exact invoke_bang line_facts c failed s name rest f hf
+  · intro f hf hn hg; rw [runArgs_plain c failed s _ _ hg]; exact invoke_plain line_facts c failed s name rest hn f hf
+  · intro hf hn hg; rw [runArgs_plain c failed s _ _ hg]; exact invoke_unknown line_facts c failed s name rest hn hf
+  · intro hf; rw [runArgs_plain c failed s _ _ hb]; exact invoke_bang_unknown line_facts c failed s name rest hf
+  · rw [runArgs_plain c failed s _ _ hb]; exact invoke_bang_alone line_facts c failed s
+
+example : (runArgs (toy false) false 0 [bs "!", bs "n"]).state = 10 ∧ (runArgs (toy false) false 0 [bs "n"]).state = 100 ∧
+    (runArgs (toy false) false 0 [bs "i"]).state = 1 ∧ (runArgs (toy false) false 0 [bs "c"]).state = 7 ∧
+    (runArgs (toy false) false 0 [bs "zz"]).out = .fatal ∧ (runArgs (toy false) false 0 [bs "!"]).out = .fatal := by
+  decide
+
+/-! ### stop and skip -/
+
+/-- `stop` after lines that all end `ok`: passed; the state is the one `stop` left, nothing after it
+is called. -/
+theorem stop_passes (c : Config σ) (s s' : σ) (script : Bytes) (pre : List Bytes) (l : Bytes) (post : List Bytes)
+    (hsplit : splitScript script = pre ++ l :: post)
+    (hpre : okFold c s pre = some s')
+    (hl : (lineOut c false s' l).out = .stop) :
+    (run c s script).verdict = .pass ∧
+    (run c s script).state = (lineOut c false s' l).state ∧
+    (run c s script).reported = none ∧
+    (run c s script).calls = foldCalls c false s 0 pre ++ callsOf (pre.length + 1) (lineOut c false s' l) := by
+  unfold run
+  rw [hsplit, runLines_okFold loop_facts c pre (l :: post) 0 s s' hpre, runLines_cons loop_facts, hl]
+  simp [endVerdict_false]
+
+/-- `skip` (a call of T.Skip) after lines that all end `ok`: skipped, with or without ContinueOnError. -/
+theorem skip_skips (c : Config σ) (s s' : σ) (script : Bytes) (pre : List Bytes) (l : Bytes) (post : List Bytes)
+    (hsplit : splitScript script = pre ++ l :: post)
+    (hpre : okFold c s pre = some s')
+    (hl : (lineOut c false s' l).out = .skip) :
+    (run c s script).verdict = .skip ∧
+    (run c s script).state = (lineOut c false s' l).state ∧
+    (run c s script).reported = none ∧
+    (run c s script).calls = foldCalls c false s 0 pre ++ callsOf (pre.length + 1) (lineOut c false s' l) := by
+  unfold run
+  rw [hsplit, runLines_okFold loop_facts c pre (l :: post) 0 s s' hpre, runLines_cons loop_facts, hl]
+  simp
+
+example : splitScript (bs "i\ns\nf") = [bs "i"] ++ bs "s" :: [bs "f"] ∧ okFold (toy true) 0 [bs "i"] = some 1 ∧
+    (lineOut (toy true) false 1 (bs "s")).out = .stop ∧ (lineOut (toy true) false 1 (bs "k")).out = .skip ∧
+    (run (toy true) 0 (bs "i\nk\nf")).verdict = .skip := by decide
+
+/-- The two remaining ways a command can end: a direct T.FailNow fails the run (no FAIL line of its
+own), any other panic is reported as such — both at once, ContinueOnError or not. -/
+theorem failnow_and_panic (c : Config σ) (s s' : σ) (script : Bytes) (pre : List Bytes) (l : Bytes) (post : List Bytes)
+    (hsplit : splitScript script = pre ++ l :: post)
+    (hpre : okFold c s pre = some s') :
+    ((lineOut c false s' l).out = .failNow →
+      (run c s script).verdict = .fail ∧ (run c s script).reported = none ∧
+      (run c s script).state = (lineOut c false s' l).state) ∧
+    ((lineOut c false s' l).out = .crash →
+      (run c s script).verdict = .crash ∧ (run c s script).state = (lineOut c false s' l).state) := by
+  unfold run
+  rw [hsplit, runLines_okFold loop_facts c pre (l :: post) 0 s s' hpre, runLines_cons loop_facts]
+  constructor <;> intro hl <;> simp [hl]
+
+example : (run (toy true) 0 (bs "i
+f
+k
+i")).verdict = .fail ∧ (run (toy true) 0 (bs "i
+f
+k
+i")).state = 1 := by decide
+
+/-- A failure in setup fails the run at once (whatever ContinueOnError says), as line 0, and no
+line is executed. -/
+theorem setup_failure (c : Config σ) (s : σ) (script : Bytes) :
+    (runT c (.error s) script).verdict = .fail ∧ (runT c (.error s) script).reported = some 0 ∧
+    (runT c (.error s) script).calls = [] ∧ (runT c (.error s) script).state = s := by
+  have : Gen.TsRun.setupFailureFailsNow = true := rfl
+  simp [runT, this]
+
+example : (runT (toy true) (.error 3) (bs "i\n")).state = 3 := by decide
+
+/-! ### the standalone command -/
+
+/-- `testscript files…` exits 0 exactly when no script failed (a skipped script is not a failure;
+a panic that is not one of runT's sentinels kills the process with status 2). -/
+theorem cli_exit (vs : List Verdict) : cli vs = 0 ↔ ∀ v ∈ vs, v ≠ .fail ∧ v ≠ .crash := by
+  unfold cli
+  exact cliAux_false cli_facts vs
+
+theorem cli_exit_status (vs : List Verdict) (h : ∀ v ∈ vs, v ≠ .crash) :
+    cli vs = (if .fail ∈ vs then 1 else 0) := by
+  unfold cli
+  have key : ∀ (vs : List Verdict) (b : Bool), (∀ v ∈ vs, v ≠ .crash) →
+      cliAux b vs = (if b = true ∨ .fail ∈ vs then 1 else 0) := by
+    intro vs
+    induction vs with
+    | nil => intro b _; cases b <;> simp [cliAux, cli_facts.failedExit]
+    | cons v vs ih =>
+      intro b hv
+      have hv' : ∀ v ∈ vs, v ≠ .crash := fun v hm => hv v (List.mem_cons_of_mem _ hm)
+      cases v
+      · simp [cliAux, ih b hv']
+      · simp [cliAux, cli_facts.failSetsFailed, ih true hv']
+      · simp [cliAux, cli_facts.skipNotFailure, ih b hv']
+      · exact absurd rfl (hv .crash (List.mem_cons_self ..))
+  simpa using key vs false h
+
+example : cli [.pass, .skip, .pass] = 0 ∧ cli [.pass, .fail, .skip] = 1 ∧ cli [.skip] = 0 := by decide
+
+/-! ### the builtin table -/
+
+/-- The model's builtin table has exactly the keys of `scriptCmds` in cmd.go (regenerated). -/
+theorem table_complete (p : Cmds.P) :
+    (Cmds.builtinTable p).map (·.1) = Gen.TsRun.scriptCmdNames.map lit := rfl
+
+theorem table_complete_lookup (p : Cmds.P) (name : Bytes) :
+    ((Cmds.config p).builtin name).isSome ↔ name ∈ Gen.TsRun.scriptCmdNames.map lit := by
+  rw [← table_complete p]
+  simp only [Cmds.config]
+  generalize Cmds.builtinTable p = t
+  induction t with
+  | nil => simp [List.lookup]
+  | cons e t ih =>
+    obtain ⟨k, v⟩ := e
+    simp only [List.lookup, List.map_cons, List.mem_cons]
+    by_cases h : name = k
+    · subst h; simp
+    · have : (name == k) = false := by simpa using h
+      simp [this, ih, h]
+
+example : Gen.TsRun.scriptCmdNames.length = 24 := by decide
 
 end GIV.C01
